@@ -20,6 +20,7 @@ FINDINGS = os.path.join(VERIF, "known_findings.json")
 # the repair, kept so that TLC can show the deviation breaks the obligation)
 CODE = {"AndLeftTrueNeedsFalseSet": True,     # fix: a true left operand of a conjunction ...
         "PreferWildcardB3": False,            # fix: IndexedCache.retrieve follows every matching branch
+        "ReplayLeavesOutRepeats": True,       # fix: a cached result stored under a partial binding is replayed once
         "ForAllKeepsConditionVars": True}     # fix: for_all lost solutions when its condition has a variable nobody above needs
 
 
